@@ -18,13 +18,16 @@ structure DMSpec (c : Cfg) (t0 : Nat) (s s' : St) (more : Bool) : Prop where
   work_lt : more = true → s'.aborting = false → work s' < work s
   pre_nomore : more = false → s'.preLeft = s.preLeft
   exh_stable : s.aborting = false → s.ready = [] → s.srcDead = true → more = false
+  B : InvB c t0 s → InvB c t0 s'
+  U : ordered c = false → InvU t0 s → UStep t0 s s'
 
 theorem dispatchOneMain_spec {c : Cfg} (hc : CfgOK c) {t0 : Nat} {s : St} (h : Inv c t0 s) :
     DMSpec c t0 s (dispatchOneMain c s).1 (dispatchOneMain c s).2 := by
   unfold dispatchOneMain
   by_cases hab : s.aborting = true
   · rw [if_pos hab]
-    refine ⟨h, Later.refl c s, rfl, Nat.le_refl _, ?_, by simp, by simp, fun _ => rfl, ?_⟩
+    refine ⟨h, Later.refl c s, rfl, Nat.le_refl _, ?_, by simp, by simp, fun _ => rfl, ?_, id,
+      fun _ hU => UStep.refl hU⟩
     · intro _ ha; rw [hab] at ha; simp at ha
     · intro ha; rw [hab] at ha; simp at ha
   rw [if_neg hab]
@@ -33,7 +36,8 @@ theorem dispatchOneMain_spec {c : Cfg} (hc : CfgOK c) {t0 : Nat} {s : St} (h : I
   -- the hook point `compute_batch_size()`
   have hhook : ∃ s1, (if c.bsAuto = true then hook c false { s with bsI := s.bsI + 1 } else s) = s1 ∧
       Inv c t0 s1 ∧ Later c s s1 ∧ s1.hung = s.hung ∧ s1.sched.length ≤ s.sched.length ∧
-      s1.preLeft = s.preLeft := by
+      s1.preLeft = s.preLeft ∧ (InvB c t0 s → InvB c t0 s1) ∧
+      (ordered c = false → InvU t0 s → UStep t0 s s1) := by
     by_cases hau : c.bsAuto = true
     · rw [if_pos hau]
       have h0 : Inv c t0 { s with bsI := s.bsI + 1 } :=
@@ -42,15 +46,19 @@ theorem dispatchOneMain_spec {c : Cfg} (hc : CfgOK c) {t0 : Nat} {s : St} (h : I
         Later.of_same rfl rfl rfl (Nat.le_refl _) rfl rfl rfl rfl rfl rfl rfl rfl rfl
           ⟨rfl, rfl, rfl, rfl, rfl, rfl, rfl, rfl, id⟩
       have hk := hook_spec hc false h0
-      exact ⟨_, rfl, hk.inv, hl0.trans hk.later, hk.hung_nosleep rfl, hk.sched_le, hk.pre⟩
+      have hU0 : InvU t0 s → UStep t0 s { s with bsI := s.bsI + 1 } :=
+        fun hU => UStep.of_same (InvU_frame hU rfl rfl rfl) (fun _ => rfl) rfl rfl rfl rfl rfl
+      exact ⟨_, rfl, hk.inv, hl0.trans hk.later, hk.hung_nosleep rfl, hk.sched_le, hk.pre,
+        fun hB => hk.B (InvB_mono hB rfl (fun _ => rfl) rfl rfl rfl (Nat.le_refl _)),
+        fun ho hU => (hU0 hU).trans (hk.U ho (hU0 hU).inv) hk.later.frame.abort_mono⟩
     · rw [if_neg hau]
-      exact ⟨s, rfl, h, Later.refl c s, rfl, Nat.le_refl _, rfl⟩
-  obtain ⟨s1, he, h1, hl1, hh1, hs1, hp1⟩ := hhook
+      exact ⟨s, rfl, h, Later.refl c s, rfl, Nat.le_refl _, rfl, id, fun _ hU => UStep.refl hU⟩
+  obtain ⟨s1, he, h1, hl1, hh1, hs1, hp1, hB1, hU1⟩ := hhook
   rw [he]
   have hstab1 : s.ready = [] → s.srcDead = true → s1.ready = [] ∧ s1.srcDead = true := hl1.exh
   by_cases hh : s1.hung = true
   · rw [if_pos hh]
-    refine ⟨h1, hl1, hh1, hs1, ?_, by simp, by simp, fun _ => hp1, ?_⟩
+    refine ⟨h1, hl1, hh1, hs1, ?_, by simp, by simp, fun _ => hp1, ?_, hB1, hU1⟩
     · intro _ _ hf; rw [hh] at hf; simp at hf
     · intro _ _ _; rfl
   rw [if_neg hh]
@@ -58,13 +66,17 @@ theorem dispatchOneMain_spec {c : Cfg} (hc : CfgOK c) {t0 : Nat} {s : St} (h : I
   · have : dispatchLocked c false (scriptedBs c s) s1 = (s1, false) := by
       unfold dispatchLocked; rw [if_pos hab1]
     rw [this]
-    refine ⟨h1, hl1, hh1, hs1, ?_, by simp, by simp, fun _ => hp1, ?_⟩
+    refine ⟨h1, hl1, hh1, hs1, ?_, by simp, by simp, fun _ => hp1, ?_, hB1, hU1⟩
     · intro _ ha; rw [hab1] at ha; simp at ha
     · intro _ _ _; rfl
   have hna1 : s1.aborting = false := by simpa using hab1
   have hd := dispatchLocked_dlspec hc (fo := false) hbs h1.T h1.S h1.L hna1
   refine ⟨⟨hd.T, hd.S, hd.L, hd.iterp h1.P⟩, hl1.trans (Later.of_dlspec hna1 hd), hd.same.2.2.1.trans hh1,
-    by rw [hd.same.1]; exact hs1, ?_, hd.pend, ?_, fun hm => (hd.pre_nomore hm).trans hp1, ?_⟩
+    by rw [hd.same.1]; exact hs1, ?_, hd.pend, ?_, fun hm => (hd.pre_nomore hm).trans hp1, ?_,
+    fun hB => (dispatchLocked_B (fo := false) (scriptedBs_le_bmax c s) h1.S hna1 (hB1 hB)
+      (fun _ hf => by cases hf)).1,
+    fun ho hU => (hU1 ho hU).trans (dispatchLocked_U (fo := false) (bs := scriptedBs c s) ho h1.T h1.S hna1
+      (hU1 ho hU).inv) hd.frame.abort_mono⟩
   · intro hm ha _
     obtain ⟨x, y⟩ := hd.exh hm ha
     refine ⟨x, ?_⟩
@@ -87,6 +99,8 @@ structure SLSpec (c : Cfg) (t0 : Nat) (fuel : Nat) (s s' : St) : Prop where
   sched_le : s'.sched.length ≤ s.sched.length
   exh : work s + 2 ≤ fuel → s'.aborting = false → s'.hung = false →
     s'.ready = [] ∧ (s'.srcDead = true ∨ s'.preLeft = some 0)
+  B : InvB c t0 s → InvB c t0 s'
+  U : ordered c = false → InvU t0 s → UStep t0 s s'
 
 theorem startLoop_spec {c : Cfg} (hc : CfgOK c) {t0 : Nat} : ∀ (fuel : Nat) (s : St), Inv c t0 s →
     SLSpec c t0 fuel s (startLoop c fuel s) := by
@@ -97,7 +111,9 @@ theorem startLoop_spec {c : Cfg} (hc : CfgOK c) {t0 : Nat} : ∀ (fuel : Nat) (s
     unfold startLoop
     refine ⟨h.frame rfl rfl rfl rfl rfl rfl rfl rfl rfl rfl rfl rfl rfl ⟨rfl, rfl, rfl, rfl, rfl, rfl, rfl, rfl, id⟩,
       Later.of_same rfl rfl rfl (Nat.le_refl _) rfl rfl rfl rfl rfl rfl rfl rfl rfl
-        ⟨rfl, rfl, rfl, rfl, rfl, rfl, rfl, rfl, id⟩, rfl, Nat.le_refl _, ?_⟩
+        ⟨rfl, rfl, rfl, rfl, rfl, rfl, rfl, rfl, id⟩, rfl, Nat.le_refl _, ?_,
+      fun hB => InvB_mono hB rfl (fun _ => rfl) rfl rfl rfl (Nat.le_refl _),
+      fun _ hU => UStep.of_same (InvU_frame hU rfl rfl rfl) (fun _ => rfl) rfl rfl rfl rfl rfl⟩
     intro hf; omega
   | succ fuel ih =>
     intro s h
@@ -111,7 +127,9 @@ theorem startLoop_spec {c : Cfg} (hc : CfgOK c) {t0 : Nat} : ∀ (fuel : Nat) (s
       simp only [Bool.and_eq_true, Bool.not_eq_eq_eq_not, Bool.not_true] at hcont
       obtain ⟨hm, hh⟩ := hcont
       have hi := ih s1 hd.inv
-      refine ⟨hi.inv, hd.later.trans hi.later, hi.hung.trans hd.hung, Nat.le_trans hi.sched_le hd.sched_le, ?_⟩
+      refine ⟨hi.inv, hd.later.trans hi.later, hi.hung.trans hd.hung, Nat.le_trans hi.sched_le hd.sched_le, ?_,
+        fun hB => hi.B (hd.B hB),
+        fun ho hU => (hd.U ho hU).trans (hi.U ho (hd.U ho hU).inv) hi.later.frame.abort_mono⟩
       intro hf ha hhu
       have ha1 : s1.aborting = false := by
         cases hx : s1.aborting with
@@ -120,7 +138,7 @@ theorem startLoop_spec {c : Cfg} (hc : CfgOK c) {t0 : Nat} : ∀ (fuel : Nat) (s
       have := hd.work_lt hm ha1
       exact hi.exh (by omega) ha hhu
     · rw [if_neg hcont]
-      refine ⟨hd.inv, hd.later, hd.hung, hd.sched_le, ?_⟩
+      refine ⟨hd.inv, hd.later, hd.hung, hd.sched_le, ?_, hd.B, hd.U⟩
       intro _ ha hhu
       cases more with
       | false => exact hd.exh rfl ha hhu
@@ -134,6 +152,8 @@ structure STSpec (c : Cfg) (t0 : Nat) (fuel : Nat) (s s' : St) : Prop where
   sched_le : s'.sched.length ≤ s.sched.length
   post : work s + 2 ≤ fuel → s.hung = false →
     (c.pdMode = 1 ∨ (s.origAlive = true ∧ ∃ q, s.preLeft = some q ∧ 1 ≤ q)) → Post s'
+  B : InvB c t0 { s with iterating := false } → InvB c t0 s'
+  U : ordered c = false → InvU t0 { s with iterating := false } → UStep t0 { s with iterating := false } s'
 
 theorem start_spec {c : Cfg} (hc : CfgOK c) {t0 : Nat} {fuel : Nat} {s : St}
     (h : Inv c t0 { s with iterating := false }) : STSpec c t0 fuel s (start c fuel s) := by
@@ -145,7 +165,7 @@ theorem start_spec {c : Cfg} (hc : CfgOK c) {t0 : Nat} {fuel : Nat} {s : St}
   simp only at hd ⊢
   by_cases hh1 : s1.hung = true
   · rw [if_pos hh1]
-    refine ⟨hd.inv, hd.later, hd.hung, hd.sched_le, ?_⟩
+    refine ⟨hd.inv, hd.later, hd.hung, hd.sched_le, ?_, hd.B, hd.U⟩
     intro _ hh _
     have : s1.hung = false := hd.hung.trans hh
     rw [hh1] at this; simp at this
@@ -154,11 +174,16 @@ theorem start_spec {c : Cfg} (hc : CfgOK c) {t0 : Nat} {fuel : Nat} {s : St}
   have h2 : ∃ s2, (if more = true then { s1 with iterating := s1.origAlive } else s1) = s2 ∧ Inv c t0 s2 ∧
       Later c s1 s2 ∧ s2.hung = s1.hung ∧ s2.sched = s1.sched ∧ work s2 = work s1 ∧ s2.preLeft = s1.preLeft ∧
       s2.aborting = s1.aborting ∧ s2.ready = s1.ready ∧ s2.srcDead = s1.srcDead ∧
-      (more = true → s2.iterating = s2.origAlive) ∧ (more = false → s2 = s1) := by
+      (more = true → s2.iterating = s2.origAlive) ∧ (more = false → s2 = s1) ∧
+      (InvB c t0 s1 → InvB c t0 s2) ∧ (InvU t0 s1 → UStep t0 s1 s2) := by
     cases more with
-    | false => exact ⟨s1, rfl, hd.inv, Later.refl c s1, rfl, rfl, rfl, rfl, rfl, rfl, rfl, by simp, fun _ => rfl⟩
+    | false =>
+      exact ⟨s1, rfl, hd.inv, Later.refl c s1, rfl, rfl, rfl, rfl, rfl, rfl, rfl, by simp, fun _ => rfl, id,
+        fun hU => UStep.refl hU⟩
     | true =>
-      refine ⟨_, rfl, ?_, ?_, rfl, rfl, rfl, rfl, rfl, rfl, rfl, fun _ => rfl, by simp⟩
+      refine ⟨_, rfl, ?_, ?_, rfl, rfl, rfl, rfl, rfl, rfl, rfl, fun _ => rfl, by simp,
+        fun hB => InvB_mono hB rfl (fun _ => rfl) rfl rfl rfl (Nat.le_refl _),
+        fun hU => UStep.of_same (InvU_frame hU rfl rfl rfl) (fun _ => rfl) rfl rfl rfl rfl rfl⟩
       · refine ⟨InvT_frame hd.inv.T rfl rfl rfl rfl rfl rfl rfl rfl rfl,
           InvS_frame hd.inv.S rfl rfl rfl rfl rfl rfl rfl rfl rfl, ?_, ?_⟩
         · exact ⟨fun hi => hi, hd.inv.L.orig_mode, hd.inv.L.pre_mode, hd.inv.L.orig_exh⟩
@@ -166,7 +191,7 @@ theorem start_spec {c : Cfg} (hc : CfgOK c) {t0 : Nat} {fuel : Nat} {s : St}
       · have hg : ∀ j, getTrk { s1 with iterating := s1.origAlive } j = getTrk s1 j := fun _ => rfl
         refine ⟨⟨rfl, rfl, rfl, rfl, rfl, rfl, rfl, rfl, id⟩, Nat.le_refl _, fun j _ => ⟨rfl, rfl, rfl⟩,
           fun j _ _ => ⟨rfl, rfl⟩, fun _ => Nat.le_refl _, fun _ _ => rfl, fun _ => ⟨[], by simp⟩, ?_, rfl, rfl,
-          Nat.le_refl _, Nat.le_refl _, Nat.le_refl _, fun _ => rfl, fun a b => ⟨a, b⟩⟩
+          Nat.le_refl _, Nat.le_refl _, Nat.le_refl _, fun _ => rfl, fun a b => ⟨a, b⟩, fun _ => Nat.le_refl _⟩
         intro hp ha hi
         have hi1 : s1.iterating = false := by
           have := hd.inv.L.iter_orig
@@ -174,11 +199,15 @@ theorem start_spec {c : Cfg} (hc : CfgOK c) {t0 : Nat} {fuel : Nat} {s : St}
           | false => rfl
           | true => have := this hx; simp only at hi; rw [this] at hi; simp at hi
         exact hp ha hi1
-  obtain ⟨s2, he2, hi2, hl2, hh2, hs2, hw2, hp2, ha2, hr2, hdd2, hio2, hsame2⟩ := h2
+  obtain ⟨s2, he2, hi2, hl2, hh2, hs2, hw2, hp2, ha2, hr2, hdd2, hio2, hsame2, hB2, hU2⟩ := h2
   rw [he2]
   have hl := startLoop_spec hc fuel s2 hi2
   generalize startLoop c fuel s2 = s3 at hl
   have hw0 : work { s with iterating := false } = work s := rfl
+  have hU3 : ordered c = false → InvU t0 { s with iterating := false } →
+      UStep t0 { s with iterating := false } s3 := fun ho hU =>
+    ((hd.U ho hU).trans (hU2 (hd.U ho hU).inv) (by rw [ha2]; exact id)).trans
+      (hl.U ho (hU2 (hd.U ho hU).inv).inv) hl.later.frame.abort_mono
   -- the `Post` statement for `s3`
   have hpost3 : work s + 2 ≤ fuel → s.hung = false →
       (c.pdMode = 1 ∨ (s.origAlive = true ∧ ∃ q, s.preLeft = some q ∧ 1 ≤ q)) →
@@ -220,7 +249,7 @@ theorem start_spec {c : Cfg} (hc : CfgOK c) {t0 : Nat} {fuel : Nat} {s : St}
   by_cases hh3 : s3.hung = true
   · rw [if_pos hh3]
     refine ⟨hl.inv, (hd.later.trans hl2).trans hl.later, by rw [hl.hung, hh2, hd.hung],
-      Nat.le_trans hl.sched_le (by rw [hs2]; exact hd.sched_le), ?_⟩
+      Nat.le_trans hl.sched_le (by rw [hs2]; exact hd.sched_le), ?_, fun hB => hl.B (hB2 (hd.B hB)), hU3⟩
     intro _ hhu _
     have : s3.hung = false := by rw [hl.hung, hh2, hd.hung]; exact hhu
     rw [hh3] at this; simp at this
@@ -239,12 +268,15 @@ theorem start_spec {c : Cfg} (hc : CfgOK c) {t0 : Nat} {fuel : Nat} {s : St}
       Later.of_same rfl rfl rfl (Nat.le_refl _) rfl rfl rfl rfl hit3.symm rfl rfl rfl rfl
         ⟨rfl, rfl, rfl, rfl, rfl, rfl, rfl, rfl, id⟩
     refine ⟨hi4, ((hd.later.trans hl2).trans hl.later).trans hl4, by show s3.hung = _; rw [hl.hung, hh2, hd.hung],
-      Nat.le_trans hl.sched_le (by rw [hs2]; exact hd.sched_le), ?_⟩
+      Nat.le_trans hl.sched_le (by rw [hs2]; exact hd.sched_le), ?_,
+      fun hB => InvB_mono (hl.B (hB2 (hd.B hB))) rfl (fun _ => rfl) rfl rfl rfl (Nat.le_refl _),
+      fun ho hU => (hU3 ho hU).trans (UStep.of_same (InvU_frame (hU3 ho hU).inv rfl rfl rfl) (fun _ => rfl) rfl rfl
+        rfl rfl rfl) (fun h => h)⟩
     intro hf hhu hmode ha _
     exact hpost3 hf hhu hmode ha (Or.inl hm1')
   · rw [if_neg hm1]
     refine ⟨hl.inv, (hd.later.trans hl2).trans hl.later, by rw [hl.hung, hh2, hd.hung],
-      Nat.le_trans hl.sched_le (by rw [hs2]; exact hd.sched_le), ?_⟩
+      Nat.le_trans hl.sched_le (by rw [hs2]; exact hd.sched_le), ?_, fun hB => hl.B (hB2 (hd.B hB)), hU3⟩
     intro hf hhu hmode ha hit
     exact hpost3 hf hhu hmode ha (Or.inr hit)
 
